@@ -5,11 +5,7 @@
 //!
 //! Every case k (global index) draws its randomness from (seed, property, k) only, so a case is
 //! replayable on its own and results do not depend on the shard count.
-mod gen;
-mod mon;
-mod panics;
-mod report;
-mod rng;
+use altrios_verif::{mon, panics, report, rng};
 
 use report::{Ctx, Report};
 use serde_json::json;
